@@ -54,6 +54,7 @@ type Profile struct {
 	NoBodyVerbs  bool // GET/DELETE/HEAD endpoints whose payload is fully mapped to params
 	Examples     bool
 	ParamHeavy   bool // favour path/query/header/cookie mappings and arrays of primitives
+	RespHeavy    bool // favour explicit responses: headers, cookies, tags, result types
 	// Avoid lists open known findings (quirk IDs) whose input class the
 	// generator must not emit; every avoidance is counted.
 	Avoid map[string]bool
@@ -79,7 +80,7 @@ func Request() Profile {
 func Response() Profile {
 	return Profile{Name: "response", MaxServices: 2, MaxMethods: 3, MaxFields: 6, Runtime: true,
 		Validations: true, Defaults: true, UserTypes: true, Aliases: true, Recursive: true, Tags: true, RespHeaders: true, Cookies: true,
-		ExplicitBody: true, Maps: true, Bytes: true, PrimPayloads: true, ResultTypes: true}
+		ExplicitBody: true, Maps: true, Bytes: true, PrimPayloads: true, ResultTypes: true, RespHeavy: true}
 }
 
 // G carries the state of one design generation.
